@@ -150,6 +150,10 @@ pub enum M<'s> {
     P(&'s str),
     #[regex("u", cb_bump)]
     U(usize),
+    #[regex("v[0-9]*", cb_val)]
+    V(usize),
+    #[regex("v[0-9]*$", cb_unit, priority = 50)]
+    VEnd,
 }
 
 /// the same decisions as inline closures, with an error callback
@@ -267,7 +271,7 @@ pub enum Which {
 
 fn has(which: Which, c: u8) -> bool {
     match which {
-        Which::Named => b"abcdefghijklmnopuwxyz".contains(&c),
+        Which::Named => b"abcdefghijklmnopuvwxyz".contains(&c),
         Which::Closures => b"abcdefgijopwy".contains(&c),
     }
 }
@@ -343,6 +347,7 @@ pub fn reference(input: &str, which: Which) -> (Vec<(String, usize, usize)>, Log
             b'n' => match n % 3 { 0 => Some(custom), 1 => Some(format!("Ok(D({}))", 4000 + n)), _ => None },
             b'o' => Some("Ok(O)".into()),
             b'p' => Some(format!("Ok(P({text:?}))")),
+            b'v' => Some(if e == b.len() { "Ok(VEnd)".into() } else { format!("Ok(V({n}))") }),
             b'w' | b'x' => None,
             b'y' => if n % 2 == 0 { Some(custom) } else { None },
             b'z' => if n % 3 == 0 { Some(custom) } else { None },
@@ -399,7 +404,7 @@ fn fnv(h: &mut u64, s: &str) {
 
 pub fn run(tier: &str, rep: &mut Report) {
     let l = if tier == "thorough" { 4 } else { 3 };
-    let named_alpha: Vec<&str> = vec!["a", "b", "c", "d", "e", "f", "g", "h", "i", "j", "k", "l", "m", "n", "o", "p", "u", "w", "x", "y", "z", "0", "1", "7", "q", " ", "!", "é"];
+    let named_alpha: Vec<&str> = vec!["a", "b", "c", "d", "e", "f", "g", "h", "i", "j", "k", "l", "m", "n", "o", "p", "u", "v", "w", "x", "y", "z", "0", "1", "7", "q", " ", "!", "é"];
     let clos_alpha: Vec<&str> = vec!["a", "b", "c", "d", "e", "f", "g", "i", "j", "o", "p", "w", "y", "0", "1", " ", "!", "é", "h"];
     let twin_alpha: Vec<&str> = vec!["a", "g", "i", "o", "0", "1", " ", "!"];
     rep.bounds.insert("rule".into(), format!("real #[derive(Logos)] enums carrying callbacks of every documented return type (named functions: enum M, 19 variants + 4 skip callbacks; closures + error callback: enum C); inputs: all strings of <= {l} symbols over alphabets of {} / {} symbols, plus digit runs up to 5; decisions are pure functions of the matched length; oracle: a hand-written reference (first letter + digits) + the documented table; checked: item stream, spans, callback log (one invocation per winning match, none for losers), Skip == skip pattern (twin enum), bump extends the item. Non-trivial = the expected stream invokes at least one callback whose outcome is not a plain Emit, or an error, or a skip.", named_alpha.len(), clos_alpha.len()));
@@ -440,7 +445,7 @@ pub fn run(tier: &str, rep: &mut Report) {
     strings(&named_alpha, l, &mut |s| check(rep, "M", s, observe::<M>(s), reference(s, Which::Named), &mut digest));
     strings(&clos_alpha, l, &mut |s| check(rep, "C", s, observe::<C>(s), reference(s, Which::Closures), &mut digest));
     // longer digit runs and bump runs
-    for letter in "abcdefghijklmnopwxyz".chars() {
+    for letter in "abcdefghijklmnopvwxyz".chars() {
         for n in 0..=5 {
             for tail in ["", " ", "q", "a", "!", "7"] {
                 let s = format!("{letter}{}{tail}", "1".repeat(n));
